@@ -2,11 +2,11 @@ package host
 
 import (
 	"context"
-	"syscall"
 	"errors"
 	"fmt"
 	"strings"
 	"sync"
+	"syscall"
 	"testing"
 	"time"
 
